@@ -600,6 +600,31 @@ func RuleTG(c *Ctx) {
 			registers = true // one loop, or two loops over the same list of tags
 		}
 	}
+	// every tag the directive names is carried: the registering loops skip no element
+	skip := ""
+	ast.Inspect(rfd.Body, func(x ast.Node) bool {
+		rs, ok := x.(*ast.RangeStmt)
+		if !ok || !(regOver[types.ExprString(rs.X)] || appOver[types.ExprString(rs.X)]) {
+			return true
+		}
+		ast.Inspect(rs.Body, func(y ast.Node) bool {
+			switch b := y.(type) {
+			case *ast.FuncLit:
+				return false
+			case *ast.BranchStmt:
+				if b.Tok == token.CONTINUE || b.Tok == token.BREAK {
+					skip = b.Tok.String() + " at " + c.P.Pos(b.Pos())
+				}
+			}
+			return true
+		})
+		return true
+	})
+	if skip != "" {
+		sc.Violation("TG1:resolver:every-tag", c.P.Pos(rfd.Pos()), "the loop that registers the interaction in its tags and collects their names skips elements ("+skip+"): a tag named in the Tags directive is not carried by the interaction (two declared tags that share a title, for instance)")
+	} else {
+		sc.Holds("TG1:resolver:every-tag", c.P.Pos(rfd.Pos()), "the registering loops skip no element")
+	}
 	if registers {
 		sc.Holds("TG1:resolver", c.P.Pos(rfd.Pos()), "for every tag: the interaction id is registered in the tag and the tag's name is returned (one loop)")
 	} else {
